@@ -1025,7 +1025,16 @@ func (g *Gen) doMakeInterface(st *State, x *ssa.MakeInterface) *Val {
 	}
 	id := g.fresh("iface", "Int")
 	g.emit(fmt.Sprintf("(assert (and (not (= %s 0)) (= (iftype %s) %d)))", id, id, tag))
+	if v.K == KSlice {
+		// a boxed slice is an immutable value: the box determines the slice header
+		g.emit("(assert " + and(eq("(ifsarr "+id+")", v.Arr), eq("(ifsoff "+id+")", v.Off), eq("(ifslen "+id+")", v.Len), eq("(ifscap "+id+")", v.Cap)) + ")")
+	}
 	return &Val{K: KIface, T: x.Type(), S: id}
+}
+
+// unboxSlice: the slice held by interface value id (see doMakeInterface)
+func unboxSlice(id string, t types.Type) *Val {
+	return &Val{K: KSlice, T: t, Arr: "(ifsarr " + id + ")", Off: "(ifsoff " + id + ")", Len: "(ifslen " + id + ")", Cap: "(ifscap " + id + ")"}
 }
 
 func (g *Gen) doTypeAssert(st *State, x *ssa.TypeAssert) *Val {
@@ -1049,6 +1058,9 @@ func (g *Gen) doTypeAssert(st *State, x *ssa.TypeAssert) *Val {
 		switch kindOf(at) {
 		case KPtr, KInt, KOpaque:
 			res = &Val{K: kindOf(at), T: at, S: "(ifptr " + v.S + ")"}
+		case KSlice:
+			res = unboxSlice(v.S, at)
+			g.typeFacts(st, res, okT)
 		default:
 			res = g.freshVal("assertval", at)
 			g.typeFacts(st, res, "true")
@@ -1162,6 +1174,8 @@ func (g *Gen) mkifSym(ct types.Type) string {
 		}
 		g.emit(fmt.Sprintf("(declare-fun %s (Int) Int)", fn))
 		g.emit(fmt.Sprintf("(assert (forall ((p Int)) (! (and (not (= (%s p) 0)) (= (%s (%s p)) p) (= (iftype (%s p)) %d)) :pattern ((%s p)))))", fn, inv, fn, fn, tag, fn))
+		// an interface value is determined by its dynamic type and the value it holds: re-boxing what was unboxed gives it back
+		g.emit(fmt.Sprintf("(assert (forall ((v Int)) (! (=> (and (not (= v 0)) (= (iftype v) %d)) (= (%s (%s v)) v)) :pattern ((%s (%s v))))))", tag, fn, inv, fn, inv))
 	}
 	return fn
 }
